@@ -615,6 +615,40 @@ class Engine:
         reproduced = (name in failing) or bool(exc) or (why == "exception" and exc)
         if not reproduced and failing:
             reproduced = True        # another obligation fails concretely on this witness
+        if not reproduced and not rep.get("harness_exception"):
+            # the solver's witness lives in an abstraction (free cos/sin/exp/rint symbols) or sits where the defect is
+            # invisible (e.g. all phases zero): look for a concrete witness of the SAME failing obligation among a few
+            # seeded random inputs that satisfy the harness assumptions; only a reproduced failure is ever reported.
+            import random
+            rng = random.Random(hash((self.o.get("seed", 0), self.hname, name)) & 0xFFFFFFFF)
+            for _ in range(self.o.get("witness_tries", 12)):
+                cand = {}
+                for idx in S.REG.inputs:
+                    a = S.REG.atoms[idx]
+                    if a.kind == "ivar":
+                        v = Fraction(rng.randint(-3, 3))
+                    elif idx in P.POSITIVE:
+                        v = Fraction(rng.randint(20, 300), 100)
+                    elif a.name.endswith(".cos") or a.name.endswith(".sin"):
+                        continue
+                    else:
+                        v = Fraction(rng.randint(-250, 250), 100)
+                    cand[a.name] = v
+                # angles: consistent (cos, sin) pairs
+                for idx in S.REG.inputs:
+                    a = S.REG.atoms[idx]
+                    if a.name.endswith(".cos"):
+                        th = rng.uniform(0.1, 3.0) if (S.REG.by_name.get(a.name[:-4] + ".sin") is not None and
+                                                         S.REG.by_name[a.name[:-4] + ".sin"].idx in P.NONNEG) else rng.uniform(-3.1, 3.1)
+                        cand[a.name] = Fraction(math.cos(th)).limit_denominator(10 ** 12)
+                        cand[a.name[:-4] + ".sin"] = Fraction(math.sin(th)).limit_denominator(10 ** 12)
+                rep2 = self.replay(cand)
+                if rep2.get("aborted") or rep2.get("harness_exception"):
+                    continue
+                if name in rep2.get("failed", []) or rep2.get("exception"):
+                    inputs, rep, failing, exc = cand, rep2, rep2.get("failed", []), rep2.get("exception")
+                    reproduced = True
+                    break
         if reproduced:
             self.stats["violated"] += 1
             path = self.write_replay(name, inputs, rep)
